@@ -19,7 +19,11 @@
 //!   bump 0 the row's own `AtKeyed` handle: `row.label().update(|n| *n += 1)`
 //!        1 the keyed field: `store.group().rows().write()` (all items in one guard)
 //!        2 the root: `store.write()` (all items in one guard)
-//! (`via` of `op0` is ignored.)
+//! `via` of `op0` selects the variant of the whole case instead: 0 `Store<Data>` (arena handle, keyed field one level
+//! below the root); 1 `ArcStore<Data>` (reference-counted handle, cloned into every closure); 2 `Store<Data>` iterated
+//! BACKWARDS (`each = store.group().rows().into_iter().rev()`, i.e. `DoubleEndedIterator::next_back`; the lists of
+//! the case are the rendered order, the collection holds them reversed); 3 `Store<Flat>`: the keyed field is a field
+//! of the ROOT (via 1 / 5 then write through the root as well).
 //!
 //! observation: exactly that of mode 11 (src/c11for.rs), one entry per list `(A log flags B)`: a row `<li>`
 //! shows `key.gen.label`; `count` = the label it shows; `flags` = per rendered key
@@ -29,7 +33,7 @@
 use crate::c11for::{tick, visible, AnyHandle};
 use any_spawner::Executor;
 use leptos::{html::li, mount::mount_to_renderer, prelude::*};
-use reactive_stores::{Store, StoreFieldIterator};
+use reactive_stores::{ArcStore, Store, StoreFieldIterator};
 use std::{cell::RefCell, collections::HashMap};
 use tachys::renderer::dom::Dom;
 use vsexp::{Lst, Sexp};
@@ -61,100 +65,171 @@ thread_local! {
         RefCell::new(HashMap::new());
 }
 
+#[derive(Debug, Clone, Store)]
+struct Flat {
+    n: i64,
+    #[store(key: i64 = |r| r.id)]
+    rows: Vec<Row>,
+}
+
+/// the whole case for one kind of store handle.  `($rows)(handle)` = the keyed field; `$rev`: iterate backwards;
+/// `$w1 / $w2 / $w3 / $w5` = the writes through parent / root / set / parent update (given the handle and the new rows);
+/// `$bump_root` = all labels + 1 through the root's guard
+macro_rules! store_case {
+    ($c:expr, $new_store:expr, $rows:expr, $rev:expr, $w1:expr, $w2:expr, $w3:expr, $w5:expr, $bump_root:expr) => {{
+        let c: &Sexp = $c;
+        let (npre, npost) = (c.at(1).num() as usize, c.at(2).num() as usize);
+        let rev: bool = $rev;
+        let lists: Vec<Vec<i64>> = c.at(3).list().iter().map(|l| l.nums()).collect();
+        let ops: Vec<i64> = c.at(4).nums();
+        let stored = |l: &Vec<i64>| -> Vec<i64> { if rev { l.iter().rev().copied().collect() } else { l.clone() } };
+        let root = Owner::new();
+        let out = root.with(|| {
+            let parent = Dom::create_element("ul", None);
+            let store = ($new_store)(stored(&lists[0]).iter().map(|k| Row { id: *k, label: 0 }).collect::<Vec<Row>>());
+            let pre: Vec<String> = (0..npre).map(|i| format!("PRE{i}")).collect();
+            let post: Vec<String> = (0..npost).map(|i| format!("POST{i}")).collect();
+            macro_rules! row_view { () => { move |row| {
+                let k = Clone::clone(&row).id().get_untracked();
+                let g = GEN.with(|g| {
+                    let v = *g.borrow();
+                    *g.borrow_mut() += 1;
+                    v
+                });
+                let stored = StoredValue::new(k);
+                let r1 = Clone::clone(&row);
+                let bump: std::rc::Rc<dyn Fn()> = std::rc::Rc::new(move || {
+                    if let Some(mut w) = Clone::clone(&r1).label().try_write() {
+                        *w += 1;
+                    }
+                });
+                let r2 = Clone::clone(&row);
+                let dead: std::rc::Rc<dyn Fn() -> bool> =
+                    std::rc::Rc::new(move || Clone::clone(&r2).label().try_get_untracked().is_none());
+                ROWS.with(|r| r.borrow_mut().insert(k, (g, stored, bump, dead)));
+                LOG.with(|l| l.borrow_mut().push(Sexp::from_nums([3, k, g])));
+                on_cleanup(move || LOG.with(|l| l.borrow_mut().push(Sexp::from_nums([4, k, g]))));
+                li().child(move || format!("{k}.{g}.{}", Clone::clone(&row).label().get()))
+            } } }
+            let s_each = Clone::clone(&store);
+            let handle = if rev {
+                mount_to_renderer(&parent, move || {
+                    view! {
+                        {pre}
+                        <For each={move || ($rows)(Clone::clone(&s_each)).into_iter().rev().collect::<Vec<_>>()}
+                            key={|row| Clone::clone(row).id().get()} children={row_view!()} />
+                        {post}
+                    }
+                })
+                .into_any_handle()
+            } else {
+                mount_to_renderer(&parent, move || {
+                    view! {
+                        {pre}
+                        <For each={move || ($rows)(Clone::clone(&s_each))} key={|row| Clone::clone(row).id().get()} children={row_view!()} />
+                        {post}
+                    }
+                })
+                .into_any_handle()
+            };
+            let mut out = vec![];
+            let mut before: Vec<u64> = vec![];
+            for (s, l) in lists.iter().enumerate() {
+                let op = ops.get(s).copied().unwrap_or(0);
+                if s > 0 {
+                    // the new collection: items whose key stays keep their data
+                    let old: HashMap<i64, i64> =
+                        ($rows)(Clone::clone(&store)).read_untracked().iter().map(|r| (r.id, r.label)).collect();
+                    let new: Vec<Row> =
+                        stored(l).iter().map(|k| Row { id: *k, label: old.get(k).copied().unwrap_or(0) }).collect();
+                    match op % 10 {
+                        0 => *($rows)(Clone::clone(&store)).write() = new,
+                        1 => ($w1)(Clone::clone(&store), new),
+                        2 => ($w2)(Clone::clone(&store), new),
+                        3 => ($w3)(Clone::clone(&store), new),
+                        4 => ($rows)(Clone::clone(&store)).set(new),
+                        _ => ($w5)(Clone::clone(&store), new),
+                    }
+                }
+                tick();
+                let (a, ids_a) = visible(&parent, &before, false);
+                let log = Lst(LOG.with(|x| std::mem::take(&mut *x.borrow_mut())));
+                let mut flags = vec![];
+                let mut bumps = vec![];
+                for k in l {
+                    let (g, stored, bump, dead) = ROWS.with(|r| r.borrow()[k].clone());
+                    let vd = stored.try_get_value().is_none();
+                    flags.push(Sexp::from_nums([*k, g, dead() as i64, vd as i64]));
+                    bumps.push(bump);
+                }
+                match (op / 10) % 10 {
+                    0 => bumps.iter().for_each(|b| b()),
+                    1 => ($rows)(Clone::clone(&store)).write().iter_mut().for_each(|r| r.label += 1),
+                    _ => ($bump_root)(Clone::clone(&store)),
+                }
+                tick();
+                let (b, ids_b) = visible(&parent, &ids_a, false);
+                before = ids_b;
+                out.push(Lst(vec![a, log, Lst(flags), b]));
+            }
+            drop(handle);
+            Lst(out)
+        });
+        drop(root);
+        out
+    }};
+}
+
 pub fn run(c: &Sexp) -> Sexp {
     let _ = Executor::init_futures_executor();
-    let (npre, npost) = (c.at(1).num() as usize, c.at(2).num() as usize);
-    let lists: Vec<Vec<i64>> = c.at(3).list().iter().map(|l| l.nums()).collect();
-    let ops: Vec<i64> = c.at(4).nums();
     LOG.with(|l| l.borrow_mut().clear());
     GEN.with(|g| *g.borrow_mut() = 0);
     ROWS.with(|r| r.borrow_mut().clear());
-
-    let root = Owner::new();
-    let out = root.with(|| {
-        let parent = Dom::create_element("ul", None);
-        let store = Store::new(Data {
-            tag: 0,
-            group: Group { n: 0, rows: lists[0].iter().map(|k| Row { id: *k, label: 0 }).collect() },
-        });
-        let pre: Vec<String> = (0..npre).map(|i| format!("PRE{i}")).collect();
-        let post: Vec<String> = (0..npost).map(|i| format!("POST{i}")).collect();
-        let handle = mount_to_renderer(&parent, move || {
-            view! {
-                {pre}
-                <For each={move || store.group().rows()} key={|row| row.id().get()}
-                    children={move |row| {
-                        let k = row.id().get_untracked();
-                        let g = GEN.with(|g| {
-                            let v = *g.borrow();
-                            *g.borrow_mut() += 1;
-                            v
-                        });
-                        let stored = StoredValue::new(k);
-                        let bump: std::rc::Rc<dyn Fn()> = std::rc::Rc::new(move || {
-                            if let Some(mut w) = row.label().try_write() {
-                                *w += 1;
-                            }
-                        });
-                        let dead: std::rc::Rc<dyn Fn() -> bool> =
-                            std::rc::Rc::new(move || row.label().try_get_untracked().is_none());
-                        ROWS.with(|r| r.borrow_mut().insert(k, (g, stored, bump, dead)));
-                        LOG.with(|l| l.borrow_mut().push(Sexp::from_nums([3, k, g])));
-                        on_cleanup(move || LOG.with(|l| l.borrow_mut().push(Sexp::from_nums([4, k, g]))));
-                        li().child(move || format!("{k}.{g}.{}", row.label().get()))
-                    }}
-                />
-                {post}
-            }
-        })
-        .into_any_handle();
-        let mut out = vec![];
-        let mut before: Vec<u64> = vec![];
-        for (s, l) in lists.iter().enumerate() {
-            let op = ops.get(s).copied().unwrap_or(0);
-            if s > 0 {
-                // the new collection: items whose key stays keep their data
-                let old: HashMap<i64, i64> =
-                    store.group().rows().read_untracked().iter().map(|r| (r.id, r.label)).collect();
-                let new: Vec<Row> = l.iter().map(|k| Row { id: *k, label: old.get(k).copied().unwrap_or(0) }).collect();
-                match op % 10 {
-                    0 => *store.group().rows().write() = new,
-                    1 => store.group().write().rows = new,
-                    2 => store.write().group.rows = new,
-                    3 => {
-                        let mut d = store.get_untracked();
-                        d.group.rows = new;
-                        store.set(d)
-                    }
-                    4 => store.group().rows().set(new),
-                    _ => store.group().update(|g| g.rows = new),
-                }
-            }
-            tick();
-            let (a, ids_a) = visible(&parent, &before, false);
-            let log = Lst(LOG.with(|x| std::mem::take(&mut *x.borrow_mut())));
-            let mut flags = vec![];
-            let mut bumps = vec![];
-            for k in l {
-                let (g, stored, bump, dead) = ROWS.with(|r| r.borrow()[k].clone());
-                let vd = stored.try_get_value().is_none();
-                flags.push(Sexp::from_nums([*k, g, dead() as i64, vd as i64]));
-                bumps.push(bump);
-            }
-            match (op / 10) % 10 {
-                0 => bumps.iter().for_each(|b| b()),
-                1 => store.group().rows().write().iter_mut().for_each(|r| r.label += 1),
-                _ => store.write().group.rows.iter_mut().for_each(|r| r.label += 1),
-            }
-            tick();
-            let (b, ids_b) = visible(&parent, &ids_a, false);
-            before = ids_b;
-            out.push(Lst(vec![a, log, Lst(flags), b]));
-        }
-        drop(handle);
-        Lst(out)
-    });
-    drop(root);
+    let data = |rows: Vec<Row>| Data { tag: 0, group: Group { n: 0, rows } };
+    let variant = c.at(4).list().first().map(|o| o.num() % 10).unwrap_or(0);
+    let out = match variant {
+        1 => store_case!(
+            c,
+            |rows| ArcStore::new(data(rows)),
+            |s: ArcStore<Data>| s.group().rows(),
+            false,
+            |s: ArcStore<Data>, new| s.group().write().rows = new,
+            |s: ArcStore<Data>, new| s.write().group.rows = new,
+            |s: ArcStore<Data>, new| {
+                let mut d = s.get_untracked();
+                d.group.rows = new;
+                s.set(d)
+            },
+            |s: ArcStore<Data>, new| s.group().update(|g| g.rows = new),
+            |s: ArcStore<Data>| s.write().group.rows.iter_mut().for_each(|r| r.label += 1)
+        ),
+        3 => store_case!(
+            c,
+            |rows| Store::new(Flat { n: 0, rows }),
+            |s: Store<Flat>| s.rows(),
+            false,
+            |s: Store<Flat>, new| s.write().rows = new,
+            |s: Store<Flat>, new| s.write().rows = new,
+            |s: Store<Flat>, new| s.set(Flat { n: 1, rows: new }),
+            |s: Store<Flat>, new| s.update(|f| f.rows = new),
+            |s: Store<Flat>| s.write().rows.iter_mut().for_each(|r| r.label += 1)
+        ),
+        v => store_case!(
+            c,
+            |rows| Store::new(data(rows)),
+            |s: Store<Data>| s.group().rows(),
+            v == 2,
+            |s: Store<Data>, new| s.group().write().rows = new,
+            |s: Store<Data>, new| s.write().group.rows = new,
+            |s: Store<Data>, new| {
+                let mut d = s.get_untracked();
+                d.group.rows = new;
+                s.set(d)
+            },
+            |s: Store<Data>, new| s.group().update(|g| g.rows = new),
+            |s: Store<Data>| s.write().group.rows.iter_mut().for_each(|r| r.label += 1)
+        ),
+    };
     ROWS.with(|r| r.borrow_mut().clear());
     tick();
     out
